@@ -79,6 +79,7 @@ def run(ctx):
     pin_rule(ctx)
     fixed_rule(ctx)
     embedded_rule(ctx)
+    vars_rule(ctx)
     shape_rule(ctx)
     proj_rule(ctx)
     alias_rule(ctx)
@@ -212,6 +213,32 @@ def inputs_rule(ctx, prefix='C05-KEY'):
                    'comparison / boolean / lossy call, or not at all): calls that differ only in %s are served each other\'s entry' % (d, miss, norm(k2)[:80], miss),
                    expected='every parameter read between the lookup and the store is an element of the key')
     ctx.floor(prefix, n, 15, 'compute-and-store caches whose key is compared with the parameters read')
+
+
+def vars_rule(ctx, prefix='C05-FIXED'):
+    """a translation that folds parameter values into the SQL (string slice bounds, getattr names, inlined functions read `root_translator.vars`) must be
+    given the values: every construction of a translator and every apply_lambda(...) in core.py passes something for `vars` -- never the constant None --
+    and Query._reapply_filters, which replays remembered apply_lambda calls (stored without values), substitutes the current ones"""
+    repo = ctx.repo
+    n = 0
+    for fn in repo.rule_funcs():
+        if fn.mod.name != 'pony.orm.core': continue
+        for c in calls_in(fn.node):
+            pos = None
+            if isinstance(c.func, ast.Attribute) and c.func.attr == 'apply_lambda': pos = 7
+            elif isinstance(c.func, ast.Name) and c.func.id == 'translator_cls': pos = 5
+            if pos is None or len(c.args) <= pos: continue
+            n += 1
+            a = c.args[pos]
+            ok = not (isinstance(a, ast.Constant) and a.value is None)
+            ctx.ob(prefix + '.translation-is-given-the-variable-values', fn, c, ok,
+                   '' if ok else '%s translates with vars=None: a query whose translation folds a parameter value into the SQL (s[:n], getattr(x, name)) fails with TypeError when it '
+                   'is translated again (e.g. after a filter that makes it optimizable)' % fn.qual, node=c)
+    rf = repo.fn('pony.orm.core', 'Query._reapply_filters')
+    ok = 'vars' in ''.join(rf.params) and any(isinstance(x, ast.Name) and x.id in rf.params[2:] and isinstance(x.ctx, ast.Load) for x in ast.walk(rf.node))
+    ctx.ob(prefix + '.replayed-filters-receive-the-current-values', rf, rf.node, ok,
+           '' if ok else 'Query._reapply_filters replays the remembered apply_lambda calls with the None that was stored in place of the values')
+    ctx.floor(prefix, n, 3, 'translator constructions / apply_lambda calls in core.py')
 
 
 def subst_copies(fn, key):
@@ -576,6 +603,7 @@ def alias_rule(ctx):
 
 
 MUTANTS = [
+    dict(id='C05-vars', file='pony/orm/core.py', fn='Query._process_lambda', old="                            prev_translator.extractors, new_vars, prev_translator.vartypes.copy(),", new="                            prev_translator.extractors, None, prev_translator.vartypes.copy(),", expect='C05-FIXED.translation-is-given'),
     dict(id='C05-inp1', file='pony/orm/core.py', fn='Query._construct_sql_and_arguments', old='aggr_func=(aggr_func_name, aggr_func_distinct, sep),', new='aggr_func=(aggr_func_name, aggr_func_distinct, bool(sep)),', expect='C05-KEY.key-carries'),
     dict(id='C05-inp2', file='pony/orm/core.py', fn='Query._construct_sql_and_arguments', old='            limit=limit,\n', new='            limit=limit is not None,\n', expect='C05-KEY.key-carries'),
     dict(id='C05-p1', file='pony/orm/core.py', fn='EntityMeta._construct_sql_', old="        sorted_query_attrs = tuple(sorted(query_attrs.items()))\n        query_key = sorted_query_attrs, order_by_pk", new="        sorted_query_attrs = tuple(sorted(query_attrs.items()))\n        query_key = frozenset(query_attrs), order_by_pk", expect='C05-PROJ'),
